@@ -4,6 +4,7 @@ import (
 	"bytes"
 	"fmt"
 	"math/rand"
+	"unicode"
 
 	"github.com/evolbioinfo/goalign/align"
 	"github.com/evolbioinfo/gotree/io"
@@ -85,7 +86,8 @@ func parsimonyUPPASS(cur, prev *tree.Node, a align.Alignment, seqs []*AncestralS
 		for j, c := range seq {
 			possibilities := make([]uint8, 0)
 			if a.Alphabet() == align.NUCLEOTIDS {
-				possibilities = align.IupacCode[c]
+				// The IUPAC table is keyed by upper-case characters; alignments may be lower-case
+				possibilities = align.IupacCode[uint8(unicode.ToUpper(rune(c)))]
 			} else {
 				if c == align.ALL_AMINO {
 					// Every character of the alphabet except the two appended last ('-' and '*');
